@@ -448,6 +448,10 @@ def interp(spec, freq, linear=False):
     Freq, PSD, npsds = proc_psd_spec(spec)
     #    spec = np.atleast_2d(spec)
     freq = np.atleast_1d(freq)
+    if freq.dtype.kind in "iub":
+        # (narrow integer types are promoted to half/single precision
+        # by np.log)
+        freq = freq.astype(float)
     if linear:
         ifunc = interp1d(
             Freq, PSD, axis=0, bounds_error=False, fill_value=0, assume_sorted=True
@@ -611,6 +615,12 @@ def rescale(P, F, n_oct=3, freq=None, extendends=True, frange=None):
     """
     F = np.atleast_1d(F)
     P = np.atleast_1d(P)
+    # integer input: work in double precision (narrow types would wrap
+    # around or be promoted to half/single precision)
+    if F.dtype.kind in "iub":
+        F = F.astype(float)
+    if P.dtype.kind in "iub":
+        P = P.astype(float)
 
     def _get_fl_fu(fcenter):
         Df = np.diff(fcenter)
@@ -636,6 +646,8 @@ def rescale(P, F, n_oct=3, freq=None, extendends=True, frange=None):
         Wctr, FL, FU = get_freq_oct(n_oct, exact=True, frange=frange)
     else:
         freq = np.atleast_1d(freq)
+        if freq.dtype.kind in "iub":
+            freq = freq.astype(float)
         if frange is not None:
             freq = freq[(freq >= frange[0]) & (freq <= frange[-1])]
         FL, FU = _get_fl_fu(freq)
